@@ -22,6 +22,8 @@ ALL = ['C01', 'C02', 'C05', 'C09', 'C10', 'C11', 'C12', 'C13', 'C14', 'C17']
 
 
 def sh(cmd, cwd=None, env=None, timeout=3600):
+    if env is None:
+        env = dict(os.environ, PYTHONHASHSEED='0')
     p = subprocess.run(cmd, cwd=cwd, env=env, capture_output=True, timeout=timeout)
     return p.returncode, (p.stdout + p.stderr).decode(errors='replace')
 
